@@ -39,6 +39,7 @@ LL = 'lattice_lib'
 def run(prog, res):
   affine_rules.check_partials(prog, res)
   affine_rules.check_hyperplane(prog, res)
+  affine_rules.check_pwl_bounds(prog, res)
   affine_rules.check_partition(prog, res)
   affine_rules.check_A4(prog, res)
   for q, name in ((LL + '.project_by_dykstra', 'lattice'),
